@@ -161,19 +161,46 @@ Definition sd_delattr (s : sd) (k : key) : res sd :=
   end.
 
 (* ---- histories *)
-Inductive op := OSet (kt : tup) (v : val) | ODel (k : key) | ODelAttr (k : key).
+(* read-only observations made in the middle of a history.  QGet: d[k]; QK2K: d.key2keys(k);
+   QV2K: d.value2keys(v); QPure: an observation that never raises (k in d, iteration, len, keys(),
+   hasattr, calling the StrategyDict ...); QBad: a lookup with an unhashable argument (TypeError). *)
+Inductive query := QGet (k : key) | QK2K (k : key) | QV2K (v : val) | QPure | QBad.
+
+(* OSetBad kt: "d[kt] = value" with an unhashable value (list, dict, set, object with __eq__ and no
+   __hash__): "value in self._inv_dict" raises TypeError. *)
+Inductive op := OSet (kt : tup) (v : val) | ODel (k : key) | ODelAttr (k : key)
+              | OSetBad (kt : tup) | OObs (q : query).
+
+Definition is_err {T} (r : res T) : bool := match r with Ok _ => false | _ => true end.
+(* does the observation raise?  None of them writes anything. *)
+Definition qraises (d : mkd) (q : query) : bool :=
+  match q with
+  | QGet k => is_err (getitem d k)
+  | QK2K k => is_err (key2keys d k)
+  | QV2K _ => false
+  | QPure => false
+  | QBad => true
+  end.
 
 Definition mstep (d : mkd) (o : op) : mkd * bool :=   (* bool: the operation raised *)
   match o with
   | OSet kt v => match setitem d kt v with Ok d' => (d', false) | _ => (d, true) end
   | ODel k => match delitem d k with Ok d' => (d', false) | _ => (d, true) end
   | ODelAttr _ => (d, true)
+  (* MultiKeyDict.__setitem__: the membership test on _inv_dict is the first statement that touches
+     the value; it raises before anything is written *)
+  | OSetBad _ => (d, true)
+  | OObs q => (d, qraises d q)
   end.
 Definition sstep (s : sd) (o : op) : sd * bool :=
   match o with
   | OSet kt v => match sd_setitem s kt v with Ok s' => (s', false) | _ => (s, true) end
   | ODel k => match sd_delitem s k with Ok s' => (s', false) | _ => (s, true) end
   | ODelAttr k => match sd_delattr s k with Ok s' => (s', false) | _ => (s, true) end
+  (* StrategyDict.__setitem__ deletes the names first ("del self[k]" in a try), then the inherited
+     __setitem__ raises TypeError: the names (and possibly the default) are gone *)
+  | OSetBad kt => (sd_try_del_all s kt, true)
+  | OObs q => (s, qraises (sd_d s) q)
   end.
 
 (* what a user can observe after a step, over key universe ks and value universe vs *)
